@@ -270,6 +270,46 @@ func init() {
 				res = append(res, gen.M{"drv": "bf", "k": k, "names": names, "hasF": false, "f": gen.M{"op": "F", "i": 0, "kids": []gen.M{}}, "kind": kind,
 					"ev": []gen.M{{"op": "parse", "tokens": toks, "seed": r.Intn(1 << 20), "layout": r.Intn(2)}}})
 			}
+			// sizes random texts never reach: long flat texts (a thousand clauses and more, as a program would
+			// write them) and deep nests of redundant parentheses
+			names := gen.Names(3)
+			long := func(clauses int) []string {
+				var toks []string
+				for j := 0; j < clauses; j++ {
+					if j > 0 {
+						toks = append(toks, ";")
+					}
+					x, y := names[r.Intn(3)], names[r.Intn(3)]
+					switch r.Intn(3) {
+					case 0:
+						toks = append(toks, "^", x, "|", y)
+					case 1:
+						toks = append(toks, x, "|", "^", y)
+					default:
+						toks = append(toks, "^", x, "->", "^", y)
+					}
+				}
+				return toks
+			}
+			nest := func(depth int) []string {
+				var toks []string
+				for j := 0; j < depth; j++ {
+					toks = append(toks, "(")
+				}
+				toks = append(toks, names[0], "&", "^", names[1])
+				for j := 0; j < depth; j++ {
+					toks = append(toks, ")")
+				}
+				return toks
+			}
+			sized := [][]string{long(700 + r.Intn(500)), nest(150 + r.Intn(150))}
+			if !env.Quick() {
+				sized = append(sized, long(1300+r.Intn(800)), long(300), nest(600), nest(1100))
+			}
+			for _, toks := range sized {
+				res = append(res, gen.M{"drv": "bf", "k": 3, "names": names, "hasF": false, "f": gen.M{"op": "F", "i": 0, "kids": []gen.M{}}, "kind": "well-formed",
+					"budgetMs": 30000, "ev": []gen.M{{"op": "parse", "tokens": toks, "seed": r.Intn(1 << 20), "layout": 0}}})
+			}
 			return res
 		},
 		Cover: func(t core.Case, cov map[string]int) bool {
